@@ -43,6 +43,57 @@ theorem no_loss_state_v4 (max : Nat) (m : Bool) (h1 : 1 ≤ max) (h2 : max ≤ u
     Along (fun _ _ o _ g' => C02.noLoss g' o = true) (LState.new .v4 max m) (Ghost.init .v4 max m) ops :=
   no_loss_state_partial .v4 max m h1 h2 ops (avoids_unsafe_v4 _ rfl ops)
 
+/-- C02.1a the release obligation starts with the broker's PUBREC: a PUBREC for a publish of this
+    connection that does not refuse it (MQTT 3.1.1: any; MQTT 5: reason 0x00 Success or 0x10 No matching
+    subscribers, the two codes below 0x80 - exactly the Rust's `reason != Success && reason !=
+    NoMatchingSubscribers` being false) is answered by PUBREL; `release_held` then keeps that release
+    held until PUBCOMP. Along runs without #17. -/
+theorem accepted_pubrec_answered_partial (ver : Version) (max : Nat) (m : Bool) (h1 : 1 ≤ max) (h2 : max ≤ u16Max)
+    (ops : List LOp) (hn : Avoids unsafeConnack (LState.new ver max m) ops) :
+    Along (fun _ g o _ g' => C02.relAnswered g o g' = true) (LState.new ver max m) (Ghost.init ver max m) ops := by
+  apply along_of_inv' B1 (fun l op => ¬ unsafeConnack l op) B1.step _ _ _ _ _ (B1.new ver max m h1 h2) hn.not_not
+  intro l g op o hi _ ho _
+  exact C02_relAnswered_ok hi op o ho
+
+/-- … MQTT 3.1.1: full strength -/
+theorem accepted_pubrec_answered_v4 (max : Nat) (m : Bool) (h1 : 1 ≤ max) (h2 : max ≤ u16Max) (ops : List LOp) :
+    Along (fun _ g o _ g' => C02.relAnswered g o g' = true) (LState.new .v4 max m) (Ghost.init .v4 max m) ops :=
+  accepted_pubrec_answered_partial .v4 max m h1 h2 ops (avoids_unsafe_v4 _ rfl ops)
+
+/-- … state form (full strength, every state that satisfies the structural invariant): the MQTT 5 state
+    treats a PUBREC for a stored publish as a refusal exactly when its reason code is neither Success nor
+    No matching subscribers; otherwise it returns the PUBREL and records the pending release -/
+theorem pubrec_refusal_iff (s : State) (hs : SInv s) (i r : Nat) (x : Pub) (hx : s.outgoingPub[i]? = some (some x)) :
+    ((handleIncoming s (.pubrec i r)).2 = .ok (some (.pubrel i)) ∧ relContains (handleIncoming s (.pubrec i r)).1 i = true) ↔
+      ¬ (s.ver = .v5 ∧ r ≠ 0 ∧ r ≠ 16) := by
+  rw [handleIncoming_pubrec]
+  have hs0 := hs.pushEv (.incoming (.pubrec i r))
+  have hx0 : (s.pushEv (.incoming (.pubrec i r))).outgoingPub[i]? = some (some x) := hx
+  have hv0 : (s.pushEv (.incoming (.pubrec i r))).ver = s.ver := rfl
+  generalize s.pushEv (.incoming (.pubrec i r)) = s0 at hs0 hx0 hv0
+  have he := handlePubrec_eff hs0 i r
+  have hack : ackOk r = false ↔ (r ≠ 0 ∧ r ≠ 16) := by unfold ackOk; simp
+  generalize handlePubrec s0 i r = res at he ⊢
+  cases he with
+  | unsol s' h1 _ => rcases h1 with h1 | h1 <;> rw [h1] at hx0 <;> simp at hx0
+  | failed x' res h1 hv he' =>
+    have hv' : s.ver = .v5 ∧ r ≠ 0 ∧ r ≠ 16 := ⟨hv0 ▸ hv.1, hack.mp hv.2⟩
+    constructor
+    · intro h
+      exfalso
+      cases he' with
+      | plain _ _ _ => simp at h
+      | released _ c _ _ _ => simp at h
+    · intro h; exact absurd hv' h
+  | moved s' x' h1 hv hi hc =>
+    have e2 : s'.outgoingRel = s0.outgoingRel.set i true := congrArg Core.rel hc
+    constructor
+    · intro _ hv'
+      exact hv ⟨hv0 ▸ hv'.1, hack.mpr hv'.2⟩
+    · intro _
+      refine ⟨rfl, ?_⟩
+      rw [relContains_of_set e2 hi i]; simp
+
 /-- C02.1b release obligation (v4 full strength): an id whose PUBREL is on the wire and whose
     PUBCOMP has not arrived is in `outgoing_rel` (so `clean()` returns its `PubRel`); across failures
     the obligation is carried by `pending` (ghost `pending` = loop `pending`, part of the coupling) -/
@@ -108,6 +159,11 @@ example : C02.check (Ghost.init .v4 3 false) (ltrace (LState.new .v4 3 false) ru
 example : C02.check (Ghost.init .v5 2 false) (ltrace (LState.new .v5 2 false) run13) = .ok := by decide
 example : (lrun (LState.new .v4 3 false) run4).st.outgoingPub[1]? = some (some ⟨1, 1, 4, none⟩) := by decide
 example : (lrun (LState.new .v5 2 false) run13).st.collision = some ⟨1, 1, 3, none⟩ := by decide
+/-- PUBREC(0x10 No matching subscribers) accepts the publish: PUBREL returned, release held until PUBCOMP -/
+example : (ltrace (LState.new .v5 2 false) [.user (.publish 2 1), .inc (.pubrec 1 16)]).map (fun o => (o.outcome, o.view)) =
+    [(.ok (some (.publish ⟨2, 1, 1, none⟩)), [.publish ⟨2, 1, 1, none⟩]), (.ok (some (.pubrel 1)), [.pubrel 1])] := by decide
+example : C02.check (Ghost.init .v5 2 false) (ltrace (LState.new .v5 2 false)
+    [.user (.publish 2 1), .inc (.pubrec 1 16), .fail, .pend, .inc (.pubcomp 1 0)]) = .ok := by decide
 
 /-! non-vacuity -/
 example : Avoids unsafeConnack (LState.new .v5 3 false) runOk := by decide
